@@ -448,6 +448,17 @@ func runMCQ(sc *qScenario) (res qResult) {
 		res.Above = append(res.Above, qCmdObs{Cmd: fmt.Sprint(a[0]), Reply: cls, Text: txt})
 	}
 
+	// a connection opened and used while the quorum is met and kept open: what it carries later is judged like anything else
+	// (the member-count precondition is a property of the member at the time of the command, not of the connection)
+	old := redis.NewClient(&redis.Options{Addr: surv.Addr, MaxRetries: -1, DialTimeout: 2 * time.Second,
+		ReadTimeout: 3 * time.Second, WriteTimeout: 3 * time.Second, PoolSize: 1, Protocol: 2, DisableIndentity: true})
+	defer old.Close()
+	for _, a := range [][]interface{}{{"ping"}, {"dm.get", "d", "k2"}} {
+		v, err := old.Do(ctx, a...).Result()
+		cls, txt := classifyReply(v, err)
+		res.Above = append(res.Above, qCmdObs{Cmd: fmt.Sprint(a[0]) + " (kept connection)", Reply: cls, Text: txt})
+	}
+
 	// stop members until the survivor is below the quorum
 	for i := len(cl.Members) - 1; i >= 1 && len(cl.Live()) >= sc.MCQ; i-- {
 		if err := cl.StopMember(i); err != nil {
@@ -470,6 +481,17 @@ func runMCQ(sc *qScenario) (res qResult) {
 	time.Sleep(150 * time.Millisecond) // let the leave events settle
 	before := surv.DB.VerifDMap().VerifStateDump(7)
 
+	for _, a := range [][]interface{}{{"ping"}, {"dm.put", "d", "kept-connection", "x"}, {"DM.GET", "d", "k2"}, {"dm.del", "d", "k3"}} {
+		c2, cancel := context.WithTimeout(context.Background(), 4*time.Second)
+		v, err := old.Do(c2, a...).Result()
+		cancel()
+		cls, txt := classifyReply(v, err)
+		co := qCmdObs{Cmd: fmt.Sprint(a[0]) + " (on a connection opened while the quorum was met)", Name: fmt.Sprint(a[0]), NArgs: len(a) - 1, Reply: cls, Text: txt}
+		if len(a) > 1 {
+			co.Arg1 = fmt.Sprint(a[1])
+		}
+		res.Cmds = append(res.Cmds, co)
+	}
 	names := append([]string{}, registered...)
 	sort.Strings(names)
 	for _, n := range names {
